@@ -20,7 +20,15 @@ func init() {
 			"(2) every TTL granted or extended by the server comes out of CalculateTTL, and the two renew functions pass the lease's original IssueTime; the expiry stored for a lease is derived from the response after the TTL was written; writers of leaseEntry.ExpireTime are tabled; " +
 			"(3) Renew/RenewToken reach the backend only across the nil-error edge of leaseEntry.renewable, whose nil-error returns lie behind the nil / irrevocable / zero-expiry / expired refusals (the non-renewable refusal is bypassed for leases under batch tokens: known finding A3); " +
 			"(4) persisted ⇒ tracked: every success edge of persistEntry is followed by updatePending (tabled exceptions), and updatePendingInternal files a lease in exactly one of the pending / non-expiring / irrevocable sets; " +
-			"(5) restore walks every stored lease of every namespace and tracks it; (6) failed revocations are retried a bounded number of times and then marked irrevocable.",
+			"(5) restore walks every stored lease of every namespace and tracks it; (6) failed revocations are retried a bounded number of times and then marked irrevocable; " +
+			"(7) the mount maximum handed to CalculateTTL is fetchTTLs' second result, which is the mount's tuned max_lease_ttl whenever that is non-zero (and only then); " +
+			"(8) LeaseOptions.ExpirationTime is time.Now() + LeaseTotal(), and LeaseTotal is the TTL field or 0; " +
+			"(9) at issue time CalculateTTL's result is written (resp.Secret.TTL / te.TTL) before the lease is registered / the token created, a login token is created with CalculateTTL's result (Core.RegisterAuth, only caller LoginCreateToken) and the Auth its lease is registered with carries the created entry's TTL; " +
+			"(10) of a role's and the request's explicit max TTL / period the role's value is taken only when it is smaller or none was requested; " +
+			"(11) collectLeases fails when listing the namespaces or a namespace's leases fails and returns the sum of the per-namespace key counts, the restore worker sends every processRestore error to the restore loop, and RestoreNamespace enters restore mode before it restores; " +
+			"(12) revocationJob.Execute returns Revoke's error, and markLeaseIrrevocable files every live lease it is given in the irrevocable set before removing it from pending; " +
+			"(13) the expiry timer is armed / reset with time.Until(le.ExpireTime); " +
+			"(14) Register's deferred rollback, armed before persistEntry, deletes the stored lease whenever Register fails.",
 		NotDecided: "the numeric bound itself (arithmetic over time.Duration inside CalculateTTL beyond the structural hard-stop clauses); periodic-token capping arithmetic; tracking after a crash at an arbitrary write prefix; clock behaviour.",
 		Run:        runC05,
 	})
@@ -537,6 +545,7 @@ func runC05(c *eng.Ctx, thorough bool) {
 			}
 		}
 	}
+	runC05Gaps2(c)
 }
 
 // timeLeaves walks a time.Time value back through phis and the
